@@ -138,6 +138,9 @@ structure Cfg where
   aslr : Bool
   /-- bare-metal loaders map no stack and bind no symbol. -/
   bare : Bool
+  /-- `linux32/arm.py` `Task.setx(pc_, entry)`: an odd entry point selects Thumb state and the program
+      counter is the entry point with bit 0 cleared (`v = (v >> 1) << 1`). -/
+  thumb : Bool
   deriving Repr, DecidableEq, Inhabited
 
 /-- `stack_base = top & ~(PAGESIZE-1)` -/
@@ -176,11 +179,16 @@ structure Task where
   pc : Nat
   deriving Repr, Inhabited
 
+/-- `p.state[pc] = cst(e_entry, 8*ptr)` (ARM: bit 0 cleared). -/
+def entryPc (c : Cfg) (entry : Nat) : Nat :=
+  let v := entry % 2 ^ (8 * c.ptr)
+  if c.thumb then v / 2 * 2 else v
+
 /-- `OS.load_elf_binary(bprm)`; `none`: an exception escapes (negative `seek`) and `load_program`
-    yields no task. `p.state[pc] = cst(e_entry, 8*ptr)`. -/
+    yields no task. -/
 def loadElf (fx : Fix) (c : Cfg) (img : ElfImage) : Option Task :=
   if (loads img.phdrs).all (Phdr.seekOk c.ps) then
-    some ⟨writesZone (elfWrites fx c img), img.entry % 2 ^ (8 * c.ptr)⟩
+    some ⟨writesZone (elfWrites fx c img), entryPc c img.entry⟩
   else none
 
 /-! ## what a kernel accepts -/
@@ -230,9 +238,24 @@ instance (n : Nat) (slots : List Reloc) (a : Nat) : Decidable (notInSlots n slot
 
 /-! ## instruction fetch -/
 
-/-- `istr = mmap.read(vaddr, maxlen)`; `istr[0]` — what `read_instruction` hands to the
-    disassembler (`bytes`), returns as an external stub (`ext`), or gives up on (anything else). -/
-def fetch (z : Zone) (a : Int) (maxlen : Nat) : Option Item := (z.read a maxlen).head?
+/-- the bytes of the leading `bytes` items of a read result, joined. -/
+def joinRaw : List Item → Bytes
+  | .data (.raw bs) _ :: rest => bs ++ joinRaw rest
+  | _ => []
+
+/-- `CoreExec.read_instruction`: `istr = mmap.read(vaddr, maxlen)`; when `istr[0]` is a `bytes` object
+    the disassembler is handed `istr[0]` joined with the `bytes` items that directly follow it (with the
+    proposed repair `C15-read-instruction-joins-adjacent-bytes.diff`; the code as it is hands over
+    `istr[0]` alone, `Fix.none`); otherwise `istr[0]` decides (an `ext` is returned as a stub, anything
+    else gives `None`). -/
+def fetch (fx : Fix) (z : Zone) (a : Int) (maxlen : Nat) : Option Item :=
+  match z.read a maxlen with
+  | [] => none
+  | .data (.raw bs) en :: rest =>
+    (match fx with
+     | .none => some (.data (.raw bs) en)
+     | .repaired => some (.data (.raw (bs ++ joinRaw rest)) en))
+  | it :: _ => some it
 
 /-! ## PE -/
 
@@ -241,7 +264,7 @@ structure PeSection where
   vsize : Nat
   rawptr : Nat
   rawsize : Nat
-  /-- `Characteristics == IMAGE_SCN_LNK_REMOVE` -/
+  /-- `Characteristics == IMAGE_SCN_LNK_REMOVE` (the loader raises on such a section) -/
   removed : Bool
   deriving Repr, DecidableEq, Inhabited
 
@@ -263,8 +286,7 @@ structure PeImage where
   deriving Repr, Inhabited
 
 def peSectionWrites (fx : Fix) (img : PeImage) : List WriteOp :=
-  (img.sections.filter (fun s => !s.removed)).map
-    (fun s => rawWrite (img.base + s.rva) (peBytes fx img.file img.salign s))
+  img.sections.map (fun s => rawWrite (img.base + s.rva) (peBytes fx img.file img.salign s))
 
 def peStackWrites (c : Cfg) (img : PeImage) : List WriteOp :=
   if c.aslr then [] else
@@ -273,8 +295,11 @@ def peStackWrites (c : Cfg) (img : PeImage) : List WriteOp :=
 def peWrites (fx : Fix) (c : Cfg) (img : PeImage) : List WriteOp :=
   peSectionWrites fx img ++ peStackWrites c img ++ slotWrites c.ptr (relocDict img.iat)
 
-def loadPe (fx : Fix) (c : Cfg) (img : PeImage) : Task :=
-  ⟨writesZone (peWrites fx c img), (img.entryRva + img.base) % 2 ^ (8 * c.ptr)⟩
+/-- `OS.load_pe_binary(pe)`.  A section whose `Characteristics` equal `IMAGE_SCN_LNK_REMOVE` makes
+    `PE.loadsegment` compare the section header with `0` (`elif S == 0`), which raises: no task. -/
+def loadPe (fx : Fix) (c : Cfg) (img : PeImage) : Option Task :=
+  if img.sections.any (·.removed) then none
+  else some ⟨writesZone (peWrites fx c img), (img.entryRva + img.base) % 2 ^ (8 * c.ptr)⟩
 
 /-! ## Mach-O (`osx/x64.py`) -/
 
